@@ -71,7 +71,12 @@ def run_job(job, tier, seed, outdir):
         cmd += ["--random-pop", str(1 + seed)]
     t0 = time.time()
     try:
-        r = subprocess.run(cmd, cwd=ROOT, env=env(), capture_output=True, text=True, timeout=job.get("secs", 60) * 2 + 120)
+        e = env()
+        if job.get("obs_reltol"):
+            # the harness multiplies 2-D arrays: f64 goes through matrixmultiply's kernels, the symbolic scalar through plain
+            # loops; the witness validation then compares floating-point outputs to this relative tolerance
+            e["SYMX_OBS_RELTOL"] = str(job["obs_reltol"])
+        r = subprocess.run(cmd, cwd=ROOT, env=e, capture_output=True, text=True, timeout=job.get("secs", 60) * 2 + 120)
         rc, err = r.returncode, r.stderr[-2000:]
     except subprocess.TimeoutExpired:
         rc, err = -9, "driver timeout"
